@@ -1,7 +1,7 @@
-\* read-back clauses on every edge two edits deep: third core, edits at a cut leaf, an uncut leaf, a cut block, the centre assembly, the core
+\* read-back clauses on every edge two edits deep: third core, edits at a cut leaf, a cut block, the centre assembly, the core
 CONSTANTS NLeaf = 6  NBlk = 3  NAsm = 2  MaxLevel = 3  LMax = 20000  VMax = 100
 CONSTANTS Parent <- TCoreParent  Area <- TCoreArea  Height <- TCoreHeight  Sym <- TCoreSym  W <- Wt  N0 <- TCoreN0  H0 <- TCoreH0
-CONSTANTS Targets <- TCoreTargets  Vals <- ValsQ  Facs <- FacsQ  Masses <- MassesQ  Maps <- MapsQ  FracMaps <- FracMapsQ
+CONSTANTS Targets <- TCoreTargetsQ  Vals <- ValsQ  Facs <- FacsQ  Masses <- MassesQ  Maps <- MapsQ  FracMaps <- FracMapsQ
 CONSTANTS LeafVolCut <- LeafVolCutEnv  ScaleRaises <- ScaleRaisesEnv
 INIT InitB
 NEXT NextB
